@@ -252,9 +252,14 @@ func validateNamespaceDirective(schema *ast.Schema) error {
 }
 
 func validateNamespacesFields(schema *ast.Schema, currentType *ast.Definition, rootType string) error {
-	if currentType == nil {
+	return validateNamespacesFieldsRec(schema, currentType, rootType, map[string]bool{})
+}
+
+func validateNamespacesFieldsRec(schema *ast.Schema, currentType *ast.Definition, rootType string, visited map[string]bool) error {
+	if currentType == nil || visited[currentType.Name] {
 		return nil
 	}
+	visited[currentType.Name] = true
 
 	for _, f := range currentType.Fields {
 		ft := schema.Types[f.Type.Name()]
@@ -263,7 +268,7 @@ func validateNamespacesFields(schema *ast.Schema, currentType *ast.Definition, r
 				return fmt.Errorf("namespace return type should be non nullable on %s.%s", currentType.Name, f.Name)
 			}
 
-			err := validateNamespacesFields(schema, ft, rootType)
+			err := validateNamespacesFieldsRec(schema, ft, rootType, visited)
 			if err != nil {
 				return err
 			}
